@@ -274,7 +274,15 @@ def h_call(eng, target, nargs, kinds, conv_kind, adj_kind):
             v = eng.int("arg%d" % i, -(2 ** 31), 2 ** 31 - 1)
             values.append(("int", v))
             args.append((lambda ctx, _v=v: (seen_ctx.append(ctx), _v)[1]))
-        elif k == "tiny":
+        elif k == "dup" and args:
+            # the very same argument (same callable object, same value) once more: equal arguments must still fill
+            # their own register / stack slot each
+            values.append(values[-1])
+            args.append(args[-1])
+        elif k == "five":
+            values.append(("int", 5))  # equal plain integers
+            args.append(5)
+        elif k in ("tiny", "dup"):
             v = eng.int("arg%d" % i, 0, 0x7FFF)  # one path on every target
             values.append(("int", v))
             args.append((lambda ctx, _v=v: (seen_ctx.append(ctx), _v)[1]))
@@ -493,6 +501,13 @@ def make_check(tier):
                     continue
                 chk.add("call/%s/%dargs/tiny/%s/adj-symbolic" % (target, n, conv_kind), h_call,
                         params=dict(target=target, nargs=n, kinds=["tiny"], conv_kind=conv_kind, adj_kind="symbolic"), timeout=3000)
+    for target in ("x64-elf", "x64-pe", "ia32-pe", "arm64"):
+        for kinds in (["tiny", "tiny", "dup", "dup", "tiny", "dup"], ["five", "tiny", "five", "five", "five"]):
+            chk.add("call/%s/%dargs/%s/custom/adj-symbolic" % (target, len(kinds), "-".join(kinds)), h_call,
+                    params=dict(target=target, nargs=len(kinds), kinds=kinds, conv_kind="custom", adj_kind="symbolic"), timeout=3000)
+        chk.add("call/%s/11args/equal-stack-args/default/adj-symbolic" % target, h_call,
+                params=dict(target=target, nargs=11, kinds=["tiny"] * 8 + ["five", "five", "dup"], conv_kind="default",
+                            adj_kind="symbolic"), timeout=3000)
     for target in ("x64-elf", "x64-pe", "ia32-pe", "arm64"):
         chk.add("reuse/%s" % target, h_call_reuse, params=dict(target=target), timeout=600)
     chk.bounds = {
